@@ -19,6 +19,7 @@ import (
 type PropConfig struct {
 	Functions   []string `json:"functions"`    // display names of functions under contract (all their obligations except panics unless "panics")
 	Posts       map[string][]string `json:"posts"` // function display name -> post clause ids that carry this property (others are left to the properties that own them)
+	Refines     []string `json:"refines"`      // methods of implementing types verified against their interface method contracts
 	Panics      bool     `json:"panics"`       // include run-time panic obligations of the listed functions
 	Sweep       []string `json:"sweep"`        // display names: panic sweep only (no contract needed)
 	SweepRoots  []string `json:"sweep_roots"`  // every repo function reachable from these is swept
@@ -157,6 +158,19 @@ func cmdCheck(args []string) int {
 	}
 	for _, n := range pc.Sweep {
 		addFn(n, false)
+	}
+	for _, n := range pc.Refines {
+		fn := byName[n]
+		if fn == nil {
+			missing = append(missing, n+" (refinement)")
+			continue
+		}
+		ref := w.Refines[funcKey(fn)]
+		if ref == nil {
+			missing = append(missing, n+" (no impl block / interface contract)")
+			continue
+		}
+		results = append(results, genRefine(p, w, ref))
 	}
 	if len(pc.SweepRoots) > 0 {
 		var roots []*ssa.Function
